@@ -491,7 +491,13 @@ theorem scheduleSlot_inv (e : Env) (σ : St) (t : Nat) (w : Walk) (wf : WF e) (h
   · have hb := bookResources_inv e σ t w wf h hlf hw
     have hwk := bookResources_walk e σ t w
     split
-    · refine ⟨inv_setT _ _ (finishTask_inv e _ t _ w.done _ wf hb hlf hw.done_le), by intro hc; cases hc⟩
+    · have hfin := finishTask_inv e _ t (bookResources e σ t w).2 w.done (σ.tst t).forward wf hb hlf hw.done_le
+      refine ⟨?_, by intro hc; cases hc⟩
+      refine ⟨?_, ?_, ?_, ?_⟩
+      · exact hfin.slot
+      · exact hfin.shift
+      · exact hfin.cnt
+      · exact hfin.leafTask
     · rename_i hnot
       refine ⟨hb, fun _ => ⟨?_, ?_, ?_⟩⟩
       · rw [hwk.2]; exact hw.off_nonneg
